@@ -7,6 +7,21 @@ HOOK_COMMITS = ["9deeead"]
 
 # property -> (level, technique, level text, level note, design ref)
 CLAIMED = {
+ "C03": ("exploration",
+         "runtime monitor: typed-vs-plain differential per sanitization cell + token-structure and decoded-value check of every attribute cell (independent tokenizer)",
+         "All 46 context cells x 7 safe types x pointer depth 0-2 x a hostile contents corpus are executed (and seeded soups): outside its own context a typed value must behave exactly like the plain string; in attribute cells no value may change the token structure, and emitted values must decode to the contents.",
+         "Trusted: htmltok + DecodeAttrValue; the type/context matrix stated in the property; typed values built with uncheckedconversions.",
+         "DESIGN.md §5 C03"),
+ "C04": ("exploration",
+         "runtime monitor: black-box behaviour classification of every (element, attribute, quoting) cell against a reviewed policy data file; outcomes ranked verbatim < escaped < innocuous < error",
+         "Each cell template is executed with a 23-probe vector; the observed outcome rank must be >= the rank the reviewed policy prescribes, so a stricter engine never alarms and any weakened table entry, loosened data-* pattern or accepted unquoted/name position does. quick: every listed pair (exhaustive) + 10% sample of the unknown product; thorough: full product of 270 element x 480 attribute names x 2 quotings.",
+         "Trusted: policy/reviewed_policy.json (committed, reviewed against the property text); htmltok to read emitted attribute values.",
+         "DESIGN.md §5 C04"),
+ "C14": ("exploration",
+         "runtime monitor: decoded attribute value split into static prefix + f(datum), judged per URL component by independent URL/percent-encoding references; independent must-reject predicate for prefixes",
+         "14 URL-typed targets x 2 quotings x structured and grammar-generated prefixes x hostile data: f(datum) must be fully percent-encoded in query/fragment and after TrustedResourceURL prefixes (same scheme/authority, no dot-dot segment with the datum), normalised and idempotent elsewhere; prefixes that leave the scheme open, contain whitespace/controls (also as references) or end in partial references/escapes must be rejected.",
+         "Trusted: htmltok + DecodeAttrValue, refs.Scheme/SafeTRUPrefix/DotDotWithArg, RFC 3986 split.",
+         "DESIGN.md §5 C14"),
  "C01": ("exploration",
          "runtime monitor: independent WHATWG tokenizer compares the token structure of hostile / inert / author renderings of generated templates; marker location",
          "Every accepted generated template is executed with hostile and inert assignments; three oracles (data vs inert structure, engine vs text/template rendering of the author's markup, marker containment) judge each execution in three tree-builder modes. Reach comes from the grammar (lexical variants, special elements, control flow that tears tags, helpers) and the edge battery; nothing is claimed for templates or data not generated.",
